@@ -12,6 +12,7 @@ pub const STYLE_TIGHT_BRACES: u32 = 2;
 pub const STYLE_PAIRED_EMPTY: u32 = 4;
 pub const STYLE_NEWLINES: u32 = 8;
 pub const STYLE_SPACE_BEFORE_CLOSE: u32 = 16;
+pub const STYLE_COMMENT_BETWEEN_BRANCHES: u32 = 32;
 
 thread_local! {
     static STYLE: std::cell::Cell<u32> = const { std::cell::Cell::new(0) };
@@ -446,6 +447,9 @@ fn print_node(n: &Node, out: &mut String) {
         Node::If { branches, else_, on } => {
             let tag = on.clone().unwrap_or_else(|| "block".into());
             for (i, (c, ch)) in branches.iter().enumerate() {
+                if i > 0 && style(STYLE_COMMENT_BETWEEN_BRANCHES) {
+                    out.push_str("<!-- between branches -->");
+                }
                 out.push('<');
                 out.push_str(&tag);
                 out.push_str(if i == 0 { " wx:if=\"{{ " } else { " wx:elif=\"{{ " });
@@ -457,6 +461,9 @@ fn print_node(n: &Node, out: &mut String) {
                 out.push('>');
             }
             if let Some(ch) = else_ {
+                if style(STYLE_COMMENT_BETWEEN_BRANCHES) {
+                    out.push_str("\n<!-- before else -->\n");
+                }
                 out.push('<');
                 out.push_str(&tag);
                 out.push_str(" wx:else>");
